@@ -148,3 +148,171 @@ Proof.
     simpl. rewrite (IHt _ _ _ eq_refl H1). reflexivity.
   - destruct (is_regish t2); [|discriminate]. inversion Hs; subst. simpl. rewrite Ho. reflexivity.
 Qed.
+
+(* ============================================================================================ *)
+(* what is written on the tree: coherence *)
+
+(* a stored (value_args, value) is what the operator returns for those operands; if producing it
+   reported an error, an error has been reported in this assembly (latch F) *)
+Definition cache_ok (F : bool) (inv : list Z -> res GenOperators.opres) (c : cache) : Prop :=
+  match c with
+  | None => True
+  | Some (args, v) => exists ids, inv args = Ok (v, ids) /\ (ids = [] \/ F = true)
+  end.
+
+Fixpoint coh (F : bool) (t : tree) : Prop :=
+  match t with
+  | Num _ _ _ b8 rep => b8 = true -> rep = true -> F = true
+  | Chr cs ev => ev = None \/ ev = Some (chr_value cs)
+  | Sym _ _ => True
+  | Dot => True
+  | Paren _ e => coh F e
+  | Infix op l r c => coh F l /\ coh F r /\ (is_pure GenOperators.KInfix op = false -> cache_ok F (invoke_infix op) c)
+  | Call l r c => coh F l /\ coh F r /\ (is_pure GenOperators.KInfix "$" = false -> cache_ok F (invoke_infix "$") c)
+  | Prefix op e c => coh F e /\ (is_pure GenOperators.KPrefix op = false -> cache_ok F (invoke_prefix op) c)
+  | Postfix op e c => coh F e /\ (is_pure GenOperators.KPostfix op = false -> cache_ok F (invoke_postfix op) c)
+  end.
+
+Lemma cache_ok_le F F' inv c : (F = true -> F' = true) -> cache_ok F inv c -> cache_ok F' inv c.
+Proof.
+  intros L. destruct c as [[args v]|]; simpl; [|trivial].
+  intros [ids [E H]]. exists ids. split; [exact E|]. destruct H; [left; assumption | right; auto].
+Qed.
+
+Lemma coh_le F F' t : (F = true -> F' = true) -> coh F t -> coh F' t.
+Proof.
+  intros L. induction t; simpl; try tauto.
+  - intros [H1 [H2 H3]]. repeat split; auto. intros P. eapply cache_ok_le; eauto.
+  - intros [H1 H2]. split; auto. intros P. eapply cache_ok_le; eauto.
+  - intros [H1 H2]. split; auto. intros P. eapply cache_ok_le; eauto.
+  - intros [H1 [H2 H3]]. repeat split; auto. intros P. eapply cache_ok_le; eauto.
+Qed.
+
+Lemma coh_true t : coh false t -> coh true t.
+Proof. apply coh_le. auto. Qed.
+
+(* a tree as the parser makes it is coherent in every state *)
+Lemma coh_strip F t : coh F (strip t).
+Proof. induction t; simpl; auto; try discriminate. Qed.
+
+Lemma ne_app {A} (a b : list A) : ne (a ++ b) = ne a || ne b.
+Proof. destruct a; reflexivity. Qed.
+
+(* boolean side conditions about the latch *)
+Ltac nebool :=
+  repeat rewrite ne_app in *;
+  repeat match goal with
+  | |- context [@ne ?A ?d] => let b := fresh "b" in set (b := @ne A d) in *; clearbody b
+  | H : context [@ne ?A ?d] |- _ => let b := fresh "b" in set (b := @ne A d) in *; clearbody b
+  end.
+Ltac allbool := repeat match goal with b : bool |- _ => destruct b end; simpl in *; try congruence; auto.
+
+(* ============================================================================================ *)
+(* the relation between two runs of the same code on two annotation states of the same tree *)
+Section Rel.
+  Context {V X : Type}.
+  Variable nf : X -> X.
+  Variable cohx : bool -> X -> Prop.
+  Definition R (F : bool) (x1 x2 : X) (r1 r2 : res (V * X * list string)) : Prop :=
+    match r1, r2 with
+    | Ok (v1, y1, d1), Ok (v2, y2, d2) =>
+        v1 = v2 /\ nf y1 = nf x1 /\ nf y2 = nf x2 /\ (F || ne d1 = F || ne d2)
+        /\ cohx (F || ne d1) y1 /\ cohx (F || ne d2) y2
+    | Err _, Err _ => True
+    | Crash s1, Crash s2 => s1 = s2
+    | OutOfFuel, OutOfFuel => True
+    | _, _ => False
+    end.
+End Rel.
+
+Lemma R_bind {V X V' X' : Type} (nf : X -> X) cohx (nf' : X' -> X') cohx' F F' x1 x2 z1 z2
+      (r1 r2 : res (V * X * list string)) (k1 k2 : V * X * list string -> res (V' * X' * list string)) :
+  R nf cohx F x1 x2 r1 r2 ->
+  (forall v y1 y2 d1 d2,
+      nf y1 = nf x1 -> nf y2 = nf x2 -> (F || ne d1 = F || ne d2) ->
+      cohx (F || ne d1) y1 -> cohx (F || ne d2) y2 ->
+      R nf' cohx' F' z1 z2 (k1 (v, y1, d1)) (k2 (v, y2, d2))) ->
+  R nf' cohx' F' z1 z2 (bind r1 k1) (bind r2 k2).
+Proof.
+  intros H K.
+  destruct r1 as [[[v1 y1] d1]| | |]; destruct r2 as [[[v2 y2] d2]| | |]; simpl in *; try tauto.
+  destruct H as [E [N1 [N2 [B [C1 C2]]]]]. subst v2. apply K; assumption.
+Qed.
+
+(* ============================================================================================ *)
+(* wrap_impure *)
+Definition cnf (c : cache) : cache := None.
+Definition ccoh (pure : bool) (inv : list Z -> res GenOperators.opres) (F : bool) (c : cache) : Prop :=
+  pure = false -> cache_ok F inv c.
+
+Lemma zl_eqb_eq a : forall b, zl_eqb a b = true -> a = b.
+Proof.
+  induction a as [|x a IH]; intros [|y b] H; simpl in H; try discriminate; [reflexivity|].
+  apply andb_prop in H. destruct H as [H1 H2]. apply Z.eqb_eq in H1. subst. f_equal. apply IH. exact H2.
+Qed.
+
+(* cache_coherent: the stored value is returned only for equal operands, and then it is the value
+   a recomputation gives; with other operands the operator is invoked again *)
+Lemma use_cache_hit c args inv v c' d :
+  use_cache false c args inv = Ok (v, c', d) ->
+  (exists args0, c = Some (args0, v) /\ args0 = args /\ c' = c /\ d = [])
+  \/ (exists ids, inv args = Ok (v, ids) /\ c' = Some (args, v) /\ d = ids
+      /\ (forall a0 v0, c = Some (a0, v0) -> a0 <> args)).
+Proof.
+  unfold use_cache. destruct c as [[args0 v0]|].
+  - destruct (zl_eqb args0 args) eqn:E.
+    + intros H. inversion H; subst. left. exists args0. apply zl_eqb_eq in E. auto.
+    + intros H. destruct (inv args) as [[v1 ids]| | |] eqn:Ei; simpl in H; try discriminate.
+      inversion H; subst. right. exists ids. repeat split; auto.
+      intros a0 w0 Hc Ha. inversion Hc; subst.
+      assert (X : zl_eqb args args = true).
+      { clear. induction args; simpl; [reflexivity|]. rewrite Z.eqb_refl. exact IHargs. }
+      congruence.
+  - intros H. destruct (inv args) as [[v1 ids]| | |] eqn:Ei; simpl in H; try discriminate.
+    inversion H; subst. right. exists ids. repeat split; auto. intros; discriminate.
+Qed.
+
+Lemma use_cache_R pure inv F c1 c2 args :
+  ccoh pure inv F c1 -> ccoh pure inv F c2 ->
+  R cnf (ccoh pure inv) F c1 c2 (use_cache pure c1 args inv) (use_cache pure c2 args inv).
+Proof.
+  unfold ccoh. intros H1 H2. unfold use_cache.
+  destruct pure.
+  - destruct (inv args) as [[v ids]| | |]; simpl; auto.
+    repeat split; intros; discriminate.
+  - specialize (H1 eq_refl). specialize (H2 eq_refl).
+    assert (Run : forall ca cb : cache, (exists v ids, inv args = Ok (v, ids)) \/ True -> True) by auto.
+    destruct (inv args) as [[v ids]| | |] eqn:Ei.
+    + (* recomputation succeeds with (v, ids) *)
+      assert (Hit : forall c, cache_ok F inv c ->
+                forall a0 v0, c = Some (a0, v0) -> zl_eqb a0 args = true -> v0 = v /\ (ids = [] \/ F = true)).
+      { intros c Hc a0 v0 E Z0. subst c. apply zl_eqb_eq in Z0. subst a0.
+        destruct Hc as [ids0 [E0 Hf]]. rewrite Ei in E0. inversion E0; subst. auto. }
+      destruct c1 as [[a1 v1]|]; destruct c2 as [[a2 v2]|]; simpl;
+        try (destruct (zl_eqb a1 args) eqn:Z1); try (destruct (zl_eqb a2 args) eqn:Z2); simpl;
+        try (destruct (Hit _ H1 _ _ eq_refl Z1) as [Ev1 Hf1]; subst v1);
+        try (destruct (Hit _ H2 _ _ eq_refl Z2) as [Ev2 Hf2]; subst v2);
+        repeat split; try reflexivity;
+        try (intros _; exists ids; split; [exact Ei | destruct ids; simpl; [left; reflexivity | right; destruct F; reflexivity]]);
+        try (intros _; eapply cache_ok_le; [|eassumption]; intros; destruct F; simpl; auto; congruence);
+        try (destruct ids; simpl; [destruct F; reflexivity|]);
+        try (destruct Hf1 as [X|X]; [discriminate | rewrite X; reflexivity]);
+        try (destruct Hf2 as [X|X]; [discriminate | rewrite X; reflexivity]);
+        try (destruct F; reflexivity).
+    + (* recomputation reports and raises: a coherent cache cannot hold these operands *)
+      assert (Miss : forall c, cache_ok F inv c -> forall a0 v0, c = Some (a0, v0) -> zl_eqb a0 args = false).
+      { intros c Hc a0 v0 E. subst c. destruct (zl_eqb a0 args) eqn:Z0; [|reflexivity].
+        apply zl_eqb_eq in Z0. subst a0. destruct Hc as [ids0 [E0 _]]. congruence. }
+      destruct c1 as [[a1 v1]|]; destruct c2 as [[a2 v2]|]; simpl;
+        try rewrite (Miss _ H1 _ _ eq_refl); try rewrite (Miss _ H2 _ _ eq_refl); simpl; auto.
+    + assert (Miss : forall c, cache_ok F inv c -> forall a0 v0, c = Some (a0, v0) -> zl_eqb a0 args = false).
+      { intros c Hc a0 v0 E. subst c. destruct (zl_eqb a0 args) eqn:Z0; [|reflexivity].
+        apply zl_eqb_eq in Z0. subst a0. destruct Hc as [ids0 [E0 _]]. congruence. }
+      destruct c1 as [[a1 v1]|]; destruct c2 as [[a2 v2]|]; simpl;
+        try rewrite (Miss _ H1 _ _ eq_refl); try rewrite (Miss _ H2 _ _ eq_refl); simpl; auto.
+    + assert (Miss : forall c, cache_ok F inv c -> forall a0 v0, c = Some (a0, v0) -> zl_eqb a0 args = false).
+      { intros c Hc a0 v0 E. subst c. destruct (zl_eqb a0 args) eqn:Z0; [|reflexivity].
+        apply zl_eqb_eq in Z0. subst a0. destruct Hc as [ids0 [E0 _]]. congruence. }
+      destruct c1 as [[a1 v1]|]; destruct c2 as [[a2 v2]|]; simpl;
+        try rewrite (Miss _ H1 _ _ eq_refl); try rewrite (Miss _ H2 _ _ eq_refl); simpl; auto.
+Qed.
